@@ -269,6 +269,14 @@ theorem c01_views (cfg : Cfg) (V : Verify) (sgn : Bytes → Bytes) (s : State) (
     (dgram cfg V s now d).1.recentR = s.recentR ∧ (dgram cfg V s now d).1.disk = s.disk := by
   rw [c01_unchanged cfg V s now d h]; simp
 
+/-- The same for the two read-only HTTP views of the device table: the recent-reports reply for any
+key and the equipment listing. -/
+theorem c01_views_http (cfg : Cfg) (V : Verify) (s : State) (now : Nat) (d : Bytes)
+    (h : ¬ Accept V s now d) (key : Key) :
+    recentQuery (dgram cfg V s now d).1 key = recentQuery s key ∧
+    equipmentQuery (dgram cfg V s now d).1 = equipmentQuery s := by
+  rw [c01_unchanged cfg V s now d h]; simp
+
 /-- Non-vacuity: with a verifying oracle a well-formed in-window report IS
 accepted and stored (so `Accept` is satisfiable and `c01_unchanged` is not vacuous). -/
 example :
